@@ -264,3 +264,10 @@ def run(F, R, tier):
         okp = any(any(o[0] == "param" and o[1] == "dir_to_acl" for o in B.origins(c[3]["args"][0])) and
                   any(o[0] == "call" and q.ends(o[1], "from_mode") for o in B.origins(c[3]["args"][1])) for c in sp)
         R.check(okm and okp, "C12.R4", "C12.R4:%s:mode-0700" % acl_fn["id"], "-", "set_permissions(dir, from_mode(0o700)) on the argument")
+        # the chmod is attempted on every path - in particular also when the chown was refused (a failed chown must not leave 0755)
+        spb = [c[0] for c in sp]
+        pth = B.path([0], B.return_blocks(), cut_blocks=spb)
+        R.check(bool(spb) and pth is None, "C12.R4", "C12.R4:%s:chmod-on-every-path" % acl_fn["id"], q.where(B, spb[0]) if spb else "-",
+                "acl_directory reaches set_permissions(0o700) on every path to its return (a refused chown does not skip it)",
+                "acl_directory can return without attempting set_permissions(0o700) (e.g. after a failed chown): the key directory keeps its "
+                "creation mode and the key file is written into it", witness={"path_lines": B.path_lines(pth)} if pth else None)
